@@ -39,6 +39,13 @@ CastSpecified(T, V) == (IsDef(T) \/ IsDef(V)) /\ ~IsVar(T) /\ ~IsVar(V)
 CastOK(T, V) == \/ (IsDef(T) /\ Equal(Strip(T).u, V))
                 \/ (IsDef(V) /\ Equal(Strip(V).u, T))
 
+(* a conversion in a reference context - the target of an assignment `Speichere e in x als T.`, the argument of a Referenz parameter
+   `f (x als T)` - re-interprets the variable in place: only between a type and the types it is (a chain of) definitions or aliases of,
+   i.e. both have the same representation type once the definitions and aliases AT THE TOP are removed (never inside a list)          *)
+RECURSIVE TrueStrip(_)
+TrueStrip(t) == LET s == Strip(t) IN IF s.k = "d" THEN TrueStrip(s.u) ELSE s
+RefCastOK(T, V) == TrueStrip(T) = TrueStrip(V)
+
 (* deterministic name of a term, used for the declared names of aliases and definitions *)
 RECURSIVE Enc(_)
 Enc(t) == CASE t.k = "p" -> t.n
